@@ -3,6 +3,9 @@
 // (ast.NewString / NewLongString / NewNumber via the parser) in-process.
 //
 //	exp <tree> <tokens> = <ast code | E:<line> | P>|<source hex>|<e: ParseExp, c: ParseChunk of `return <src>`>
+//	eval <tree> <leaf values> = <value golua computes for `return <src>` | E | P>|<source hex>
+//	mv <cap> <shape> = <number of values observed>|<context>|<form>|<source hex>
+//	mvast <shape> = <AST marking of the return list>|<form>|<source hex>
 //	short s<literal hex> = s<value hex> | E | P
 //	long  s<literal hex> = s<value hex> | E | P
 //	chunk <expect> <kind> s<source hex> = ok | E:<line> | E:? | P     expect: ok or the line the error must carry
@@ -15,6 +18,7 @@ import (
 	"encoding/hex"
 	"errors"
 	"fmt"
+	"math"
 	"os"
 	"runtime"
 	"strings"
@@ -22,6 +26,7 @@ import (
 	"github.com/arnodel/golua/ast"
 	"github.com/arnodel/golua/ops"
 	"github.com/arnodel/golua/parsing"
+	rt "github.com/arnodel/golua/runtime"
 	"github.com/arnodel/golua/scanner"
 	"verifharness/hlib"
 )
@@ -110,21 +115,62 @@ type tok struct {
 	lua  string
 }
 
+// a leaf: how atom i is spelled, how golua's AST node for it is dumped, and (numeric literals
+// only) its value in the line protocol
+type leaf struct {
+	src, dump, val string
+}
+
+func nameLeaves() []leaf {
+	var out []leaf
+	for i := 0; i < 8; i++ {
+		n := string(rune('a' + i))
+		out = append(out, leaf{n, "N:" + n, ""})
+	}
+	return out
+}
+
+// every kind of primary expression the grammar has (simpleexp / suffixedexp)
+var mixedLeaves = []leaf{
+	{"a", "N:a", ""}, {"_x1", "N:_x1", ""},
+	{"2", "I:2", "i2"}, {"0", "I:0", "i0"}, {"0x10", "I:16", "i16"}, {"0XfF", "I:255", "i255"},
+	{"2.5", "F:4004000000000000", ""}, {"1e2", "F:4059000000000000", ""}, {".5", "F:3fe0000000000000", ""}, {"3.", "F:4008000000000000", ""},
+	{"0x.8", "F:3fe0000000000000", ""}, {"0x1p4", "F:4030000000000000", ""}, {"0xA.8p0", "F:4025000000000000", ""},
+	{`"s"`, "S:73", ""}, {`'t\n'`, "S:740a", ""}, {"[[l]]", "S:6c", ""}, {"[==[]]]==]", "S:5d5d", ""},
+	{"nil", "nil", ""}, {"true", "true", ""}, {"false", "false", ""}, {"...", "...", ""},
+	{"f(x)", "call(N:f;;N:x)", ""}, {"f()", "call(N:f;;)", ""}, {"f(x, 2)", "call(N:f;;N:x,I:2)", ""}, {"f(...)", "call(N:f;;...)", ""},
+	{`f"s"`, "call(N:f;;S:73)", ""}, {"f{1}", "call(N:f;;T{-=I:1})", ""}, {"f[[l]]", "call(N:f;;S:6c)", ""}, {"f(x)(y)", "call(call(N:f;;N:x);;N:y)", ""},
+	{"a.b", "idx(N:a,S:62)", ""}, {"a[i]", "idx(N:a,N:i)", ""}, {"a.b.c[1]", "idx(idx(idx(N:a,S:62),S:63),I:1)", ""}, {"a[i][2]", "idx(idx(N:a,N:i),I:2)", ""},
+	{"s:m()", "call(N:s;m;)", ""}, {"s:m(1, x)", "call(N:s;m;I:1,N:x)", ""}, {`s:m"q"`, "call(N:s;m;S:71)", ""}, {"a.b:m{}", "call(idx(N:a,S:62);m;T{})", ""},
+	{"{}", "T{}", ""}, {"{1, 2}", "T{-=I:1,-=I:2}", ""}, {"{x = 1; [2] = y,}", "T{S:78=I:1,I:2=N:y}", ""}, {"{f()}", "T{-=call(N:f;;)}", ""},
+	{"function() end", "fn(0,false)", ""}, {"function(x, y) return x end", "fn(2,false)", ""}, {"function(...) return ... end", "fn(0,true)", ""},
+}
+
+// numeric literals in several spellings, with their values, for evaluation
+var numLeaves = []leaf{
+	{"2", "I:2", "i2"}, {"3", "I:3", "i3"}, {"1", "I:1", "i1"}, {"0", "I:0", "i0"}, {"7", "I:7", "i7"},
+	{"0x10", "I:16", "i16"}, {"0xff", "I:255", "i255"}, {"0X2", "I:2", "i2"},
+	{"2.0", "F:4000000000000000", "f4000000000000000"}, {"0.5", "F:3fe0000000000000", "f3fe0000000000000"}, {".25", "F:3fd0000000000000", "f3fd0000000000000"},
+	{"3.", "F:4008000000000000", "f4008000000000000"}, {"1e1", "F:4024000000000000", "f4024000000000000"}, {"5E-1", "F:3fe0000000000000", "f3fe0000000000000"},
+	{"0x1p1", "F:4000000000000000", "f4000000000000000"}, {"0x.8", "F:3fe0000000000000", "f3fe0000000000000"}, {"0xA", "I:10", "i10"}, {"0xe", "I:14", "i14"}, {"0xE1", "I:225", "i225"},
+	{"9007199254740993", "I:9007199254740993", "i9007199254740993"}, {"0x7fffffffffffffff", "I:9223372036854775807", "i9223372036854775807"},
+}
+
 // render: minimal parentheses from the precedence table + the redundant ones (mirrors Spec.Grammar.renderAt;
 // the oracle re-checks every token string against the Lean definition)
-func (n *node) render(need int, out *[]tok) {
+func (n *node) render(need int, out *[]tok, lv []leaf) {
 	var body []tok
 	switch n.kind {
 	case 0:
-		body = []tok{{byte('a' + n.atom), string(rune('a' + n.atom))}}
+		body = []tok{{byte('a' + n.atom), lv[n.atom].src}}
 	case 1:
 		body = append(body, tok{unops[n.op].tok, unops[n.op].lua})
-		n.l.render(10, &body)
+		n.l.render(10, &body, lv)
 	default:
 		o := binops[n.op]
-		n.l.render(o.needL, &body)
+		n.l.render(o.needL, &body, lv)
 		body = append(body, tok{o.code, o.lua})
-		n.r.render(o.needR, &body)
+		n.r.render(o.needR, &body, lv)
 	}
 	k := n.parens
 	if k == 0 && n.kind != 0 && n.level() < need {
@@ -146,18 +192,30 @@ func isWord(s string) bool {
 
 func startsWord(s string) bool { return isWord(s[:1]) }
 
+// the four ways to break a line (llex.c inclinenumber: each counts as ONE line)
+var lineBreaks = []string{"\n", "\r", "\r\n", "\n\r"}
+
 // separators between tokens.  Every one of them is white space or a comment in Lua 5.4.
-var gapsPlain = []string{" ", " ", "  ", "\t", "\n", "\r\n", "\n\r", "\r", " \f\v "}
-var gapsComment = []string{" --c\n", "--[[ c ]]", "--[==[ ]] \n ]==]", "--\n", "--[[\n]]", " --[ x\n", "--[==x\n", "--]]\r\n"}
+var gapsPlain = []string{" ", " ", "  ", "\t", " \f\v "}
+var gapsComment = []string{"--[[ c ]]", "--[=[ ]] ]=]"}
 
 // `--[` / `--[=` directly followed by a line break: a SHORT comment that ends at that line break
-var gapsBracketNL = []string{"--[\n", " --[=\n", "--[==\r\n"}
+var gapsBracketNL []string
+
+func init() {
+	for _, nl := range lineBreaks {
+		gapsPlain = append(gapsPlain, nl, nl)
+		gapsComment = append(gapsComment, " --c"+nl, "--"+nl, "--]]"+nl, " --[ x"+nl, "--[==x"+nl, "-- x = 1"+nl,
+			"--[[ c"+nl+"c ]]", "--[==[ ]] "+nl+" ]==]"+nl, "--[[ c ]]"+nl, "--[["+nl+nl+"]]")
+		gapsBracketNL = append(gapsBracketNL, "--["+nl, " --[="+nl, "--[=="+nl)
+	}
+}
 
 func mustSeparate(a, b string) bool {
-	if isWord(a) && startsWord(b) {
-		return true
-	}
 	la, fb := a[len(a)-1], b[0]
+	if (isWord(a) || la == '.') && (startsWord(b) || fb == '.') {
+		return true // names, keywords, numerals (`2 ..`, `3. and`, `0xf ..`)
+	}
 	if la == '-' && fb == '-' {
 		return true
 	}
@@ -211,35 +269,95 @@ var opCode = map[ops.Op]byte{
 	ops.OpNeg: '1', ops.OpNot: '2', ops.OpLen: '3', ops.OpBitNot: '4',
 }
 
-// dump golua's AST in the prefix code.  ast.BinOp keeps `left op1 r1 op2 r2 …` of one precedence level as
-// a list that the compiler folds from the left (astcomp/compexp.go), so that is what the list denotes.
-func dump(e ast.ExpNode) string {
+// structural dump of a primary expression (everything that is not an operator application)
+func dumpLeaf(e ast.ExpNode) string {
+	list := func(es []ast.ExpNode) string {
+		var parts []string
+		for _, x := range es {
+			parts = append(parts, dumpAny(x))
+		}
+		return strings.Join(parts, ",")
+	}
+	call := func(c *ast.BFunctionCall) string {
+		return "call(" + dumpAny(c.Target) + ";" + c.Method.Val + ";" + list(c.Args) + ")"
+	}
 	switch n := e.(type) {
 	case ast.Name:
-		if len(n.Val) == 1 && n.Val[0] >= 'a' && n.Val[0] <= 'h' {
-			return n.Val
+		return "N:" + n.Val
+	case ast.Int:
+		return fmt.Sprintf("I:%d", n.Val)
+	case ast.Float:
+		return fmt.Sprintf("F:%016x", math.Float64bits(n.Val))
+	case ast.String:
+		return "S:" + hex.EncodeToString(n.Val)
+	case ast.Nil:
+		return "nil"
+	case ast.Bool:
+		return fmt.Sprint(n.Val)
+	case ast.Etc, ast.BEtc:
+		return "..."
+	case ast.FunctionCall:
+		return call(n.BFunctionCall)
+	case *ast.BFunctionCall:
+		return call(n)
+	case ast.BFunctionCall:
+		return call(&n)
+	case ast.IndexExp:
+		return "idx(" + dumpAny(n.Coll) + "," + dumpAny(n.Idx) + ")"
+	case ast.TableConstructor:
+		var parts []string
+		for _, f := range n.Fields {
+			k := "-"
+			if _, ok := f.Key.(ast.NoTableKey); !ok {
+				k = dumpAny(f.Key)
+			}
+			parts = append(parts, k+"="+dumpAny(f.Value))
 		}
-		return "?name"
-	case *ast.BinOp:
-		return dumpBin(*n)
-	case ast.BinOp:
-		return dumpBin(n)
-	case *ast.UnOp:
-		return string(opCode[n.Op]) + dump(n.Operand)
-	case ast.UnOp:
-		return string(opCode[n.Op]) + dump(n.Operand)
+		return "T{" + strings.Join(parts, ",") + "}"
+	case ast.Function:
+		return fmt.Sprintf("fn(%d,%v)", len(n.Params), n.HasDots)
 	}
 	return fmt.Sprintf("?%T", e)
 }
 
-func dumpBin(b ast.BinOp) string {
-	s := dump(b.Left)
+// operator applications inside leaves (not generated, but dump them faithfully)
+func dumpAny(e ast.ExpNode) string {
+	switch e.(type) {
+	case *ast.BinOp, ast.BinOp, *ast.UnOp, ast.UnOp:
+		return "op(" + dumpWith(e, nil) + ")"
+	}
+	return dumpLeaf(e)
+}
+
+// dump golua's AST in the prefix code.  ast.BinOp keeps `left op1 r1 op2 r2 …` of one precedence level as
+// a list that the compiler folds from the left (astcomp/compexp.go), so that is what the list denotes.
+// Leaves are mapped back to the atom letters through their structural dump.
+func dumpWith(e ast.ExpNode, leaves map[string]string) string {
+	switch n := e.(type) {
+	case *ast.BinOp:
+		return dumpBin(*n, leaves)
+	case ast.BinOp:
+		return dumpBin(n, leaves)
+	case *ast.UnOp:
+		return string(opCode[n.Op]) + dumpWith(n.Operand, leaves)
+	case ast.UnOp:
+		return string(opCode[n.Op]) + dumpWith(n.Operand, leaves)
+	}
+	d := dumpLeaf(e)
+	if l, ok := leaves[d]; ok {
+		return l
+	}
+	return "?" + d
+}
+
+func dumpBin(b ast.BinOp, leaves map[string]string) string {
+	s := dumpWith(b.Left, leaves)
 	for _, r := range b.Right {
 		c, ok := opCode[r.Op]
 		if !ok {
 			c = '?'
 		}
-		s = string(c) + s + dump(r.Operand)
+		s = string(c) + s + dumpWith(r.Operand, leaves)
 	}
 	return s
 }
@@ -259,7 +377,7 @@ func errResult(err error) string {
 	return "E:?"
 }
 
-func parseExpSrc(src string) (res string) {
+func parseExpSrc(src string, leaves map[string]string) (res string) {
 	defer func() {
 		if p := recover(); p != nil {
 			res = "P"
@@ -269,7 +387,7 @@ func parseExpSrc(src string) (res string) {
 	if err != nil {
 		return errResult(err)
 	}
-	return dump(e)
+	return dumpWith(e, leaves)
 }
 
 func parseChunkSrc(src string) (blk ast.BlockStat, res string) {
@@ -285,7 +403,7 @@ func parseChunkSrc(src string) (blk ast.BlockStat, res string) {
 	return b, "ok"
 }
 
-func parseReturnExp(src string) string {
+func parseReturnExp(src string, leaves map[string]string) string {
 	b, res := parseChunkSrc("return " + src)
 	if res != "ok" {
 		return res
@@ -293,29 +411,83 @@ func parseReturnExp(src string) string {
 	if len(b.Stats) != 0 || len(b.Return) != 1 {
 		return "?shape"
 	}
-	return dump(b.Return[0])
+	return dumpWith(b.Return[0], leaves)
 }
 
-func emitExp(n *node, style int, rng *hlib.Rng, viaChunk bool) {
+var theRuntime *rt.Runtime
+
+// value of the chunk `return <src>` run by golua (compiler, constant folding, VM)
+func evalSrc(src string) (res string) {
+	defer func() {
+		if p := recover(); p != nil {
+			res = "P"
+		}
+	}()
+	if theRuntime == nil {
+		theRuntime, _ = hlib.NewRuntime(os.Stderr)
+	}
+	c, err := hlib.Load(theRuntime, "c12", "return "+src)
+	if err != nil {
+		return "E"
+	}
+	class, vals, _ := hlib.PCall(theRuntime, rt.FunctionValue(c))
+	switch class {
+	case hlib.OK:
+		if len(vals) == 0 {
+			return "n"
+		}
+		return hlib.Enc(vals[0])
+	case hlib.ERR:
+		return "E"
+	}
+	return "P"
+}
+
+// pick 8 leaves with pairwise different dumps
+func pickLeaves(pool []leaf, rng *hlib.Rng) []leaf {
+	var out []leaf
+	seen := map[string]bool{}
+	for len(out) < 8 {
+		l := pool[rng.Below(len(pool))]
+		if !seen[l.dump] {
+			seen[l.dump] = true
+			out = append(out, l)
+		}
+	}
+	return out
+}
+
+func emitExp(n *node, lv []leaf, style int, rng *hlib.Rng, viaChunk, eval bool) {
 	var ts []tok
-	n.render(0, &ts)
+	n.render(0, &ts, lv)
 	var tree, tk strings.Builder
 	n.code(&tree, true)
 	for _, t := range ts {
 		tk.WriteByte(t.code)
 	}
 	src := spell(ts, style, rng)
+	back := map[string]string{}
+	for i, l := range lv {
+		back[l.dump] = string(rune('a' + i))
+	}
 	var res string
 	if viaChunk {
-		res = parseReturnExp(src)
+		res = parseReturnExp(src, back)
 	} else {
-		res = parseExpSrc(src)
+		res = parseExpSrc(src, back)
 	}
 	mode := "e"
 	if viaChunk {
 		mode = "c"
 	}
 	hlib.Emit("exp", tree.String(), tk.String(), "=", res+"|"+hex.EncodeToString([]byte(src))+"|"+mode)
+	if eval {
+		vals := make([]string, len(lv))
+		for i, l := range lv {
+			vals[i] = l.val
+		}
+		hlib.Emit("eval", tree.String(), strings.Join(vals, ","), "=", evalSrc(src)+"|"+hex.EncodeToString([]byte(src)))
+	}
 }
 
 func setParens(n *node, f func(depth int) int, depth int) {
@@ -329,10 +501,14 @@ func setParens(n *node, f func(depth int) int, depth int) {
 
 func emitTree(n *node, rng *hlib.Rng, count *int) {
 	*count++
-	// 1. minimal parentheses, single spaces (ParseExp) and compact (return <exp> through ParseChunk)
-	emitExp(n, 0, rng, false)
-	emitExp(n, 1, rng, true)
-	// 2. random redundant parentheses, white space / comment variations
+	names := nameLeaves()
+	// 1. minimal parentheses, single spaces, names (ParseExp)
+	emitExp(n, names, 0, rng, false, false)
+	// 2. compact; leaves of every primary-expression kind (return <exp> through ParseChunk)
+	emitExp(n, pickLeaves(mixedLeaves, rng), 1, rng, true, false)
+	// 3. numeric literals as leaves: the AST again, and the VALUE of `return <exp>`
+	emitExp(n, pickLeaves(numLeaves, rng), rng.Below(4), rng, rng.Bool(), true)
+	// 4. random redundant parentheses, white space / comment / line-break variations
 	m := n.clone()
 	setParens(m, func(d int) int {
 		if rng.Chance(35) {
@@ -340,12 +516,21 @@ func emitTree(n *node, rng *hlib.Rng, count *int) {
 		}
 		return 0
 	}, 0)
-	emitExp(m, 2+rng.Below(2), rng, rng.Bool())
-	// 3. every node parenthesised once, with `--[`+newline comments now and then
+	lv := names
+	if rng.Bool() {
+		lv = pickLeaves(mixedLeaves, rng)
+	}
+	if allSpellings || *count%4 != 3 {
+		emitExp(m, lv, 2+rng.Below(2), rng, rng.Bool(), false)
+	}
+	if *count%3 == 0 {
+		emitExp(m, pickLeaves(numLeaves, rng), 3, rng, true, true)
+	}
+	// 5. every node parenthesised once, with `--[`+line-break comments now and then
 	if *count%4 == 0 {
 		f := n.clone()
 		setParens(f, func(int) int { return 1 }, 0)
-		emitExp(f, 4, rng, true)
+		emitExp(f, names, 4, rng, true, false)
 	}
 }
 
@@ -360,7 +545,11 @@ func depth1(leaf func() *node) []*node {
 	return out
 }
 
+// thorough tier: every tree in every spelling
+var allSpellings bool
+
 func exprs(thorough bool) {
+	allSpellings = thorough
 	rng := hlib.NewRng(hlib.Seed() ^ 0xc12)
 	next := 0
 	leaf := func() *node { next = (next + 1) % 8; return atom(next) }
@@ -617,24 +806,38 @@ var validChunks = [][]string{
 	{"x", "=", "9223372036854775807", "+", "0xffffffffffffffff"}, {"x", "=", "\"\\65\\x41\\u{41}\\z  \\n\""},
 }
 
-func spellChunk(ts []string, style int, rng *hlib.Rng) (src string, lines []int) {
+// count line breaks the way Lua does: \r\n and \n\r are one
+func countLines(g string) int {
+	n := 0
+	for i := 0; i < len(g); i++ {
+		if g[i] == '\n' || g[i] == '\r' {
+			if i+1 < len(g) && (g[i+1] == '\n' || g[i+1] == '\r') && g[i+1] != g[i] {
+				i++
+			}
+			n++
+		}
+	}
+	return n
+}
+
+// spelling of a chunk given as a token list.  `§` inside a token stands for a line break (long strings,
+// backslash-newline in short strings); styles: 0 single spaces, 1 compact, 2 every gap is the line break
+// `nl`, 3 random white space / comments with every kind of line break, 5 every gap is a short comment
+// ended by `nl`, 6 every gap is a long comment that contains `nl` and is followed by `nl`.
+// lines[i] = line on which token i starts; lines[len] = line of <eof>.
+func spellChunk(ts []string, style int, nl string, rng *hlib.Rng) (src string, lines []int) {
 	var b strings.Builder
 	line := 1
 	lines = make([]int, len(ts)+1)
 	addGap := func(g string) {
 		b.WriteString(g)
-		// count line breaks the way Lua does: \r\n and \n\r are one
-		for i := 0; i < len(g); i++ {
-			if g[i] == '\n' || g[i] == '\r' {
-				if i+1 < len(g) && (g[i+1] == '\n' || g[i+1] == '\r') && g[i+1] != g[i] {
-					i++
-				}
-				line++
-			}
-		}
+		line += countLines(g)
 	}
 	for i, t := range ts {
 		if i > 0 {
+			if style >= 3 && strings.HasSuffix(ts[i-1], "-") {
+				addGap(" ")
+			}
 			switch style {
 			case 0:
 				addGap(" ")
@@ -643,12 +846,13 @@ func spellChunk(ts []string, style int, rng *hlib.Rng) (src string, lines []int)
 					addGap(" ")
 				}
 			case 2:
-				addGap("\n")
+				addGap(nl)
+			case 5:
+				addGap("--c" + nl)
+			case 6:
+				addGap("--[[" + nl + "c" + nl + "]]" + nl)
 			default:
 				if rng.Chance(30) {
-					if ts[i-1] == "-" {
-						addGap(" ")
-					}
 					addGap(gapsComment[rng.Below(len(gapsComment))])
 				} else {
 					addGap(gapsPlain[rng.Below(len(gapsPlain))])
@@ -656,8 +860,9 @@ func spellChunk(ts []string, style int, rng *hlib.Rng) (src string, lines []int)
 			}
 		}
 		lines[i] = line
+		t = strings.ReplaceAll(t, "§", nl)
 		b.WriteString(t)
-		// tokens that contain line breaks (none in our corpora)
+		line += countLines(t)
 	}
 	lines[len(ts)] = line
 	return b.String(), lines
@@ -721,6 +926,9 @@ var errTemplates = []errTemplate{
 	{toks: strings.Fields("repeat if a then x = 1 end until b y = 2"), del: []int{3, 5}, gaps: []int{0, 1, 4, 5, 6, 7, 8, 9, 10, 11, 12, 13}, delEndInner: []int{7}},
 	{toks: strings.Fields("function t . m ( ) x = 1 end y = 2"), del: []int{7}, delEnd: []int{9}, gaps: []int{0, 1, 2, 3, 4, 10, 11, 12, 13}},
 	{toks: strings.Fields("goto l ; :: l :: x = 1"), del: []int{7}, gaps: []int{0, 1, 2, 3, 4, 5, 6, 7, 8, 9}},
+	// tokens that contain line breaks: long strings, backslash-newline and \z in short strings, long comments
+	{toks: []string{"x", "=", "[[a§b§]]", "y", "=", "\"c\\§d\"", "z", "=", "[==[§§]==]", "w", "=", "\"e\\z §  §f\"", "v", "=", "1"}, gaps: []int{0, 1, 2, 3, 4, 5, 6, 7, 8, 9, 10, 11, 12, 13, 14, 15}},
+	{toks: []string{"x", "=", "1", "--[[§§]]", "y", "=", "2", "--[=[§]]§]=]", "z", "=", "3"}, gaps: []int{0, 1, 2, 4, 5, 6, 8, 9, 10, 11}},
 }
 
 func errorLines(thorough bool) {
@@ -729,26 +937,37 @@ func errorLines(thorough bool) {
 	if thorough {
 		rounds = 12
 	}
+	type sp struct {
+		style int
+		nl    string
+	}
+	// every kind of line break in every place a line break can stand: between tokens, ending a short
+	// comment, inside and after a long comment (inside long / short strings: the `§` tokens)
+	var spellings []sp
+	for _, nl := range lineBreaks {
+		spellings = append(spellings, sp{2, nl}, sp{5, nl}, sp{6, nl})
+	}
+	for r := 0; r < rounds; r++ {
+		spellings = append(spellings, sp{3, lineBreaks[r%4]})
+	}
 	// valid chunks in every spelling must be accepted
 	for _, c := range validChunks {
-		for style := 0; style <= 3; style++ {
-			src, _ := spellChunk(c, style, rng)
+		for style := 0; style <= 1; style++ {
+			src, _ := spellChunk(c, style, "\n", rng)
 			emitChunk("ok", "valid", src)
 		}
-		for r := 0; r < rounds; r++ {
-			src, _ := spellChunk(c, 3, rng)
+		for _, s := range spellings {
+			src, _ := spellChunk(c, s.style, s.nl, rng)
 			emitChunk("ok", "valid", src)
 		}
 	}
 	for _, t := range errTemplates {
-		src, _ := spellChunk(t.toks, 0, rng)
+		src, _ := spellChunk(t.toks, 0, "\n", rng)
 		emitChunk("ok", "valid", src)
-		for r := 0; r < rounds; r++ {
-			styles := []int{2, 3, 3}
-			style := styles[r%len(styles)]
+		for _, s := range spellings {
 			for _, g := range t.gaps {
 				for _, bad := range []string{")", "]", "}", "$", "@", "!", "end", "until", "elseif"} {
-					if (bad == "end" || bad == "until" || bad == "elseif") && !rng.Chance(35) {
+					if !thorough && !rng.Chance(40) {
 						continue
 					}
 					if bad == "end" || bad == "until" || bad == "elseif" {
@@ -758,30 +977,172 @@ func errorLines(thorough bool) {
 						}
 					}
 					m := append(append(append([]string{}, t.toks[:g]...), bad), t.toks[g:]...)
-					src, lines := spellChunk(m, style, rng)
+					src, lines := spellChunk(m, s.style, s.nl, rng)
 					emitChunk(fmt.Sprint(lines[g]), "stray:"+bad, src)
 				}
 			}
 			for _, d := range t.del {
 				m := append(append([]string{}, t.toks[:d]...), t.toks[d+1:]...)
-				src, lines := spellChunk(m, style, rng)
+				src, lines := spellChunk(m, s.style, s.nl, rng)
 				emitChunk(fmt.Sprint(lines[d]), "del:"+t.toks[d], src)
 			}
 			for _, d := range t.delEnd {
 				m := append(append([]string{}, t.toks[:d]...), t.toks[d+1:]...)
-				src, lines := spellChunk(m, style, rng)
+				src, lines := spellChunk(m, s.style, s.nl, rng)
 				kind := "delend:" + blockOf(t.toks, d)
 				emitChunk(fmt.Sprint(lines[len(m)]), kind, src) // <eof> is on the last line
-				src2 := src + "\n\n"
-				emitChunk(fmt.Sprint(lines[len(m)]+2), kind, src2)
+				emitChunk(fmt.Sprint(lines[len(m)]+2), kind, src+s.nl+s.nl)
+				emitChunk(fmt.Sprint(lines[len(m)]+1), kind, src+" --c"+s.nl) // … after a final comment line
 			}
 			for _, d := range t.delEndInner {
 				m := append(append([]string{}, t.toks[:d]...), t.toks[d+1:]...)
-				src, lines := spellChunk(m, style, rng)
+				src, lines := spellChunk(m, s.style, s.nl, rng)
 				emitChunk(fmt.Sprint(lines[d]), "delend:"+blockOf(t.toks, d), src) // toks[d+1] is `until`
 			}
 		}
 	}
+}
+
+// ---------------------------------------------------------------------------
+// multi-valued expressions: how many values does an expression list deliver?
+
+const mvPrelude = `local rec = 0
+local function it(s, c) rec = 1 + (s ~= nil and 1 or 0) + (c ~= nil and 1 or 0) return nil end
+local function main(...)
+local v1, v2, v3 = ...
+local function f() return v1, v2, v3 end
+local o = {m = function(self) return v1, v2, v3 end}
+`
+
+var mvContexts = []struct {
+	name string
+	cap  int
+	body string // %s = the expression list
+}{
+	{"return", 0, "local function g(...) return %s end return select('#', g(...))"},
+	{"args", 0, "return select('#', %s)"},
+	{"method-args", 0, "local q = {n = function(self, ...) return select('#', ...) end} return q:n(%s)"},
+	{"table", 0, "return #{%s}"},
+	{"table-sep", 0, "return #{%s;}"},
+	{"assign", 6, "local t = {} t[1], t[2], t[3], t[4], t[5], t[6] = %s local n = 0 for i = 1, 6 do if t[i] ~= nil then n = n + 1 end end return n"},
+	{"local", 6, "local a1, a2, a3, a4, a5, a6 = %s return (a1 ~= nil and 1 or 0) + (a2 ~= nil and 1 or 0) + (a3 ~= nil and 1 or 0) + (a4 ~= nil and 1 or 0) + (a5 ~= nil and 1 or 0) + (a6 ~= nil and 1 or 0)"},
+	{"for-in", 3, "for _ in %s do end return rec"},
+}
+
+var mvForms = []struct{ name, multi, paren string }{
+	{"call", "f()", "(f())"}, {"method", "o:m()", "(o:m())"}, {"vararg", "...", "(...)"},
+	{"call2", "f()", "((f()))"}, {"vararg2", "...", "( ( ... ) )"},
+}
+
+func runChunk(src string) (res string) {
+	defer func() {
+		if p := recover(); p != nil {
+			res = "P"
+		}
+	}()
+	if theRuntime == nil {
+		theRuntime, _ = hlib.NewRuntime(os.Stderr)
+	}
+	c, err := hlib.Load(theRuntime, "c12", src)
+	if err != nil {
+		return "E"
+	}
+	class, vals, _ := hlib.PCall(theRuntime, rt.FunctionValue(c))
+	switch class {
+	case hlib.OK:
+		if len(vals) == 1 && vals[0].Type() == rt.IntType {
+			return fmt.Sprint(vals[0].AsInt())
+		}
+		return "?"
+	case hlib.ERR:
+		return "E"
+	}
+	return "P"
+}
+
+func astMarks(explist string) (res string) {
+	defer func() {
+		if p := recover(); p != nil {
+			res = "P"
+		}
+	}()
+	b, r := parseChunkSrc("return " + explist)
+	if r != "ok" {
+		return r
+	}
+	var marks []string
+	for _, e := range b.Return {
+		switch e.(type) {
+		case ast.FunctionCall, ast.Etc:
+			marks = append(marks, "m")
+		case *ast.BFunctionCall, ast.BFunctionCall, ast.BEtc:
+			marks = append(marks, "p")
+		default:
+			marks = append(marks, "s")
+		}
+	}
+	return strings.Join(marks, ",")
+}
+
+func multiValues() {
+	var shapes [][]byte
+	var rec func(cur []byte)
+	rec = func(cur []byte) {
+		if len(cur) > 0 {
+			shapes = append(shapes, append([]byte{}, cur...))
+		}
+		if len(cur) == 3 {
+			return
+		}
+		for _, c := range []byte("smp") {
+			rec(append(cur, c))
+		}
+	}
+	rec(nil)
+	for _, form := range mvForms {
+		for _, sh := range shapes {
+			var items, codes []string
+			for _, c := range sh {
+				switch c {
+				case 's':
+					items = append(items, "v1")
+					codes = append(codes, "s")
+				case 'm':
+					items = append(items, form.multi)
+					codes = append(codes, "m3")
+				default:
+					items = append(items, form.paren)
+					codes = append(codes, "p3")
+				}
+			}
+			explist := strings.Join(items, ", ")
+			shape := strings.Join(codes, ",")
+			for _, ctx := range mvContexts {
+				if ctx.name == "for-in" {
+					// a 4th value would be the loop's to-be-closed variable, and 7 / 8 are not closable
+					n := len(sh)
+					if sh[len(sh)-1] == 'm' {
+						n += 2
+					}
+					if n > 3 {
+						continue
+					}
+				}
+				src := mvPrelude + fmt.Sprintf(ctx.body, explist) + "\nend\nreturn main(it, 7, 8)\n"
+				hlib.Emit("mv", fmt.Sprint(ctx.cap), shape, "=", runChunk(src)+"|"+ctx.name+"|"+form.name+"|"+hex.EncodeToString([]byte(src)))
+			}
+			hlib.Emit("mvast", shape, "=", astMarks(explist)+"|"+form.name+"|"+hex.EncodeToString([]byte("return "+explist)))
+		}
+	}
+}
+
+// for replays: names map to their letters, every other leaf is shown structurally
+func nameBack() map[string]string {
+	m := map[string]string{}
+	for i, l := range nameLeaves() {
+		m[l.dump] = string(rune('a' + i))
+	}
+	return m
 }
 
 func main() {
@@ -796,6 +1157,7 @@ func main() {
 		exprs(thorough)
 		literals(thorough)
 		errorLines(thorough)
+		multiValues()
 	case "stdin":
 		// lines: short s<hex> | long s<hex> | chunk <expect> s<hex> | expsrc s<hex> | retsrc s<hex>
 		sc := bufio.NewScanner(os.Stdin)
@@ -816,10 +1178,14 @@ func main() {
 				emitLit(f[0], string(raw))
 			case "chunk":
 				emitChunk(f[1], f[2], string(raw))
+			case "run":
+				hlib.Emit("run", arg, "=", runChunk(string(raw)))
 			case "expsrc":
-				hlib.Emit("expsrc", arg, "=", parseExpSrc(string(raw)))
+				hlib.Emit("expsrc", arg, "=", parseExpSrc(string(raw), nameBack()))
 			case "retsrc":
-				hlib.Emit("retsrc", arg, "=", parseReturnExp(string(raw)))
+				hlib.Emit("retsrc", arg, "=", parseReturnExp(string(raw), nameBack()))
+			case "evalsrc":
+				hlib.Emit("evalsrc", arg, "=", evalSrc(string(raw)))
 			}
 		}
 	default:
